@@ -89,7 +89,7 @@ func (fc *FnCtx) specialSync(ins ssa.Instruction, callee *ssa.Function, cc *ssa.
 	g := fc.g
 	op, ok := lockMethods[callee.String()]
 	if !ok {
-		return false
+		return fc.specialHigher(ins, callee, cc, args, setResult)
 	}
 	T, fld, owner, ok := fc.lockOf(cc.Args[0])
 	var li *LockInv
